@@ -204,7 +204,8 @@ PROPS['C15'] = dict(
          'FindFirst, FindFirstN, Find pulls, Matches with early exit and re-run, n in {-1..3} capped by the visible plants, optional WithStart before/inside/after a plant; plus the C09 '
          'generator on generator-backed finite windows. Non-trivial as C09.',
     modelled='consume2, itertools.Take, range-over-func',
-    assumptions=['each implementation call runs under a 4 s wall-clock budget; exceeding it is reported as a failure to return'],
+    assumptions=['each implementation call runs under a 4 s wall-clock budget; exceeding it is reported as a failure to return',
+                 'termination while other goroutines read the same Number: the schedule explorer of C05 on endless sources (the waits a search issues are At-style waits)'],
 )
 
 import c05stage
@@ -249,6 +250,7 @@ PROPS['C05'] = dict(
     stages=[c05stage.stage, _race_stage],
 )
 PROPS['C06']['stages'] = [c05stage.stage]
+PROPS['C15']['stages'] = [c05stage.stage]
 
 def _exports_stage(prop, tier, seed, workdir, env, root, build, repo, **kw):
     """every exported function / method of the three packages (go/parser) must have a driver case"""
